@@ -198,8 +198,8 @@ def gen_cases(ctx):
     yield {"kind": "read", "fmt": "tum", "variant": "p", "text": tf.BOM + "# c\r\n" + "1.5 2 3 4 0.1 0.2 0.3 0.9\r\n", "label": "ok", "corpus": "bom-crlf"}
     yield {"kind": "read", "fmt": "euroc", "variant": "p", "text": "#ts,x\n1403636580838555648,1,2,3,0.5,0.1,0.2,0.3,9,9\n", "label": "ok", "corpus": "euroc-ns"}
     yield {"kind": "read", "fmt": "kitti", "variant": "h", "text": " ".join(str(k) for k in range(1, 13)) + "\n", "label": "ok", "corpus": "kitti-slots"}
-    n_ok = 1500 if not th else 8000
-    n_bad = 2500 if not th else 12000
+    n_ok = 8000 if th else 3000 if ctx.extended else 1500
+    n_bad = 12000 if th else 5000 if ctx.extended else 2500
     sizes = [1, 2, 3, 4, 7, 8, 9, 15, 16, 17, 31, 32, 33, 63, 64, 65, 127, 128, 129, 255, 256, 257] + ([1023, 1024, 1025, 4095, 4096, 4097] if th else [])
     for k in range(n_ok):
         fmt = r.choice(["tum", "kitti", "euroc"])
